@@ -779,6 +779,75 @@ fn search_compress_bytes(r: &mut Rng, n: usize, o: &mut Out) {
     }
 }
 
+/// a box header of rank 129 whose dimensions overflow usize before a zero dimension is reached
+fn overflowing_shape_bytes() -> Vec<u8> {
+    let mut b = vec![32u8, 129];
+    for _ in 0..128 {
+        b.extend([255u8, 255, 255, 255]);
+    }
+    b.extend([0u8, 0, 0, 0]);
+    b
+}
+
+const ABORT_BYTES: [u8; 12] = [32, 2, 255, 255, 255, 127, 16, 0, 0, 0, 0, 0];
+
+/// fixed regression corpus: the inputs of the defects repaired in /repo (dfd90e9, 821d336, 5718f7d); runs first
+fn regress(o: &mut Out) {
+    for (base, x) in [(3.0, 243.0), (100.0, 1000000.0), (12.0, 35831808.0), (3.0, 617673396283948.0), (12.0, 1283918464548865.0), (10.0, 1000.0), (2.0, 4503599627370496.0)] {
+        o.count("base");
+        let (bv, xv) = (num(&[], &[base]), num(&[], &[x]));
+        match run1("⌝⊥⟜⊥", &[xv.clone(), bv.clone()]) {
+            Ok(back) if floats_of(&back) == vec![x] => {}
+            other => {
+                let digits = run1("⊥", &[xv, bv]).map(|d| format!("{d:?}")).unwrap_or_default();
+                o.violation("base", "exact-power", &format!("base {base} of {x}"), &format!("digits {digits}; round trip {:?}", other.map(|v| floats_of(&v))), "⌝⊥⟜⊥");
+            }
+        }
+    }
+    let i8s = [num(&[3], &[1.0, 2.0, 3.0]), num(&[2, 1], &[1.0, 2.0]), num(&[0], &[]), num(&[0, 1], &[]), num(&[], &[-128.0]), num(&[1, 1, 1], &[127.0]), byte(&[2], &[5, 200])];
+    for v in &i8s {
+        for side in ["", "⌞", "⌟"] {
+            o.count("bytes");
+            let prog = format!("⌝bytes{side}⟜bytes{side}");
+            // byte arrays are clamped to 127 by the i8 encoder (documented: "clamped to the range")
+            let want = match v {
+                Value::Byte(_) => num(&[2], &[5.0, 127.0]),
+                _ => v.clone(),
+            };
+            match run1(&prog, &[v.clone(), Value::from("i8")]) {
+                Err(e) => o.violation("bytes", "error-i8", &format!("i8{side} {}", describe(v)), &e, &prog),
+                Ok(back) => {
+                    if let Err((_, e)) = same(&want, &back, false) {
+                        o.violation("bytes", "i8", &format!("i8{side} {}", describe(v)), &format!("{e}; got {}", describe(&back)), &prog);
+                    }
+                }
+            }
+        }
+    }
+    for (bytes, name) in [(ABORT_BYTES.to_vec(), "abort"), (overflowing_shape_bytes(), "overflow")] {
+        o.count("unbinary");
+        let arg = bytes.iter().map(|b| b.to_string()).collect::<Vec<_>>().join(",");
+        let exe = std::env::current_exe().unwrap();
+        let shown = format!("{:?}…({} bytes, {name})", &bytes[..12], bytes.len());
+        match std::process::Command::new(exe).args(["unbin", &arg]).output() {
+            Ok(out) if out.status.success() => {
+                let line = String::from_utf8_lossy(&out.stdout).to_string();
+                if line.contains("interpreter has crashed") {
+                    o.violation("unbinary", "panic-on-malformed-shape", &shown, &line.chars().take(300).collect::<String>(), "°binary");
+                }
+            }
+            Ok(out) => o.violation(
+                "unbinary",
+                "process-abort-on-box-count",
+                &shown,
+                String::from_utf8_lossy(&out.stderr).lines().next().unwrap_or(""),
+                "°binary",
+            ),
+            Err(e) => o.violation("unbinary", "spawn-failed", &shown, &e.to_string(), "°binary"),
+        }
+    }
+}
+
 // ------------------------------------------------------------------ tie
 
 fn emit(kind: &str, fields: &[(&str, String)]) {
@@ -926,6 +995,19 @@ fn tie(r: &mut Rng, n: usize) {
         let out = run1("⊥", &[v.clone(), num(&[], &[base as f64])]);
         emit("base", &[("b", base.to_string()), ("sh", jshape(&v)), ("d", jints(&[x])), ("out", res_ints(&out))]);
     }
+    // fixed: the i8 shapes of the repaired defect
+    for (sh, d) in [(vec![3usize], vec![1.0, 2.0, -3.0]), (vec![2, 1], vec![1.0, 2.0]), (vec![0], vec![]), (vec![], vec![-128.0]), (vec![1, 1, 1], vec![127.0])] {
+        for side in 0..3usize {
+            let sd = ["", "⌞", "⌟"][side];
+            let v = num(&sh, &d);
+            let out = run1(&format!("bytes{sd}"), &[v.clone(), Value::from("i8")]);
+            emit("bytes", &[("f", jstr("i8")), ("side", side.to_string()), ("sh", jshape(&v)), ("d", jints(&d.iter().map(|x| *x as i128).collect::<Vec<_>>())), ("out", res_ints(&out))]);
+            if let Ok(b) = out {
+                let back = run1(&format!("⌝bytes{sd}"), &[b.clone(), Value::from("i8")]);
+                emit("unbytes", &[("f", jstr("i8")), ("side", side.to_string()), ("sh", jshape(&b)), ("d", jints(&ints_of(&b).unwrap())), ("out", res_ints(&back))]);
+            }
+        }
+    }
     // ---- bytes formats (integers; sides: 0 native, 1 little, 2 big)
     let fmts = ["u8", "i8", "u16", "i16", "u32", "i32", "u64", "i64", "u128", "i128"];
     for i in 0..n {
@@ -1010,7 +1092,8 @@ fn tie(r: &mut Rng, n: usize) {
         emit_unbinary_child(h);
     }
     // a box header that announces 2^35 elements
-    emit_unbinary_child(&[32, 2, 255, 255, 255, 127, 16, 0, 0, 0, 0, 0]);
+    emit_unbinary_child(&ABORT_BYTES);
+    emit_unbinary_child(&overflowing_shape_bytes());
     // ---- numeric cast laws used as premises of the binary theorem: checked on floats here
     for i in 0..n * 2 {
         let x = if i % 2 == 0 { gen_bin_any(r) } else { f64::from_bits(r.next()) };
@@ -1103,6 +1186,7 @@ fn main() {
         "search" => {
             let n: usize = std::env::args().nth(2).and_then(|s| s.parse().ok()).unwrap_or(100);
             let mut o = Out { evals: 0, per: BTreeMap::new(), viol: 0 };
+            regress(&mut o);
             search_binary(&mut r.fork(), n, &mut o);
             search_repr(&mut r.fork(), n / 2, &mut o);
             search_numbers(&mut r.fork(), n * 2, &mut o);
